@@ -83,6 +83,7 @@ func c10Contexts() []c10Ctx {
 		{"root-with-noise", "unknown_attr = noise.x\nunknown_block {\n  any_string = noise.y\n}\n", "\nlit_string = \"${noise.z}\"\n", false, true},
 		{"block-selfrefs", "blk {\n  ", "\n}\n", true, true},
 		{"nested-in-block", "blk {\n  inner {\n    ", "\n  }\n}\n", false, true},
+		{"nested-in-block-after-attribute", "blk {\n  lit_string = \"s\"\n  inner {\n    ", "\n  }\n}\n", false, true},
 		{"dynamic-content", "blk {\n  dynamic \"inner\" {\n    for_each = []\n    content {\n      ", "\n    }\n  }\n}\n", false, true},
 		{"dependent-body", "dep \"a\" {\n  ", "\n}\n", true, true},
 		{"dependent-body-unresolved", "dep \"zz\" {\n  ", "\n}\n", false, false},
